@@ -70,7 +70,9 @@ def draw_config(rng, wl, tier):
         "shared_memory": rng.random() < 0.2, "callbacks": rng.choice([0, 1]), "extra_kwargs": None,
         "data_variant": {"garbage": rng.randrange(1, 10**6) if rng.random() < 0.6 else None,
                          "order": "asc" if rng.random() < 0.35 else "desc",
-                         "history": rng.randrange(1, 10**6) if rng.random() < 0.3 else None},
+                         "history": rng.randrange(1, 10**6) if rng.random() < 0.3 else None,
+                         # mask, read, set_mask({}): compared with the analysis of the same data without a mask
+                         "history_clear": rng.randrange(1, 10**6) if rng.random() < 0.08 else None},
     }
     cfg["in_child"] = rng.random() < 0.12
     # history fault: the same analysis on another data set, with the same worker count, earlier in the process
@@ -79,10 +81,15 @@ def draw_config(rng, wl, tier):
 
 
 def _variant(wl, dv):
-    if not dv or (dv.get("garbage") is None and dv.get("order", "desc") == "desc" and dv.get("history") is None):
+    if not dv or (dv.get("garbage") is None and dv.get("order", "desc") == "desc" and dv.get("history") is None and dv.get("history_clear") is None):
         return wl
     w2 = dict(wl)
     w2["data"] = dict(wl["data"])
+    if dv.get("history_clear") is not None:
+        w2["data"]["mask"] = []
+        w2["data"]["history_clear"] = dv["history_clear"]
+        w2["data"]["order"] = dv.get("order", "desc")
+        return w2
     if dv.get("garbage") is not None:
         w2["data"]["garbage"] = dv["garbage"]
     if dv.get("history") is not None:
@@ -128,6 +135,14 @@ def _evaluate(wl, cfg, dec, ctx, after_decoy=False):
     ref = ctx.reference()
     dv = cfg.get("data_variant") or {}
     wv = _variant(wl, dv)
+    if dv.get("history_clear") is not None:
+        # the reference is the same analysis of the same points without any mask (computed once per workload)
+        if "ref_nomask" not in ctx.extra:
+            w0 = dict(wl)
+            w0["data"] = dict(wl["data"])
+            w0["data"]["mask"] = []
+            ctx.extra["ref_nomask"] = run_entry(w0, {"num_procs": 1, "np_seed": 777, "callbacks": 1}, cache=ctx.cache)
+        ref = ctx.extra["ref_nomask"]
     cache = ctx.cache
     if after_decoy:
         dcfg = {"num_procs": cfg["num_procs"], "callbacks": 0, "np_seed": 777 if wl.get("stochastic") else 4321}
@@ -158,6 +173,8 @@ def _evaluate(wl, cfg, dec, ctx, after_decoy=False):
         out.probes["variant_ascending"] = 1
         out.fired = dict(out.fired or {})
         out.fired["F9"] = out.fired.get("F9", 0) + 1
+    if dv.get("history_clear") is not None:
+        out.probes["variant_mask_cleared"] = 1
     if dv.get("history") is not None:
         out.probes["variant_mask_history"] = 1
         out.fired = dict(out.fired or {})
@@ -198,6 +215,8 @@ def _evaluate(wl, cfg, dec, ctx, after_decoy=False):
                 what.append("ascending input order")
             if dv.get("history") is not None:
                 what.append("the same final mask reached through a set_mask history on one object")
+            if dv.get("history_clear") is not None:
+                what.append("a mask that was set, read through every view and then cleared with set_mask({})")
             if what:
                 add("masked-points-ignored", f"{wl['entry']}({opts}) result changes with {' and '.join(what)}: {d}")
             else:
